@@ -27,20 +27,47 @@ RULE = ("mock mappers over random symmetric multigraph neighbour arrays (rings, 
         "AbstractLinearObjFuncList (Constant / ConstantZeroth / Zeroth or None), a plain LinearObj (Zeroth or None), every order of every "
         "list, regularization_matrix and regularization_matrix_reduced (fresh and cached); kernel schemes on EXTENDED meshes (60-150 points, "
         "spacing 1/2-3/4 of the scale, separations 5.5-18 scale lengths: rectangular blocks and strips, staggered point sets), every covariance "
-        "entry against the profile table, SPD observed with margins. Non-trivial = at least 3 parameters and 2 neighbour pairs / cross rows; distinct = distinct JSON input.")
+        "entry against the profile table (RELATIVE 1e-11), SPD observed with margins. PHASE 3: (ii) Delaunay meshes with ONE VERTEX OF DEGREE "
+        "21..40 (a vertex inside a ring, exact or jittered; a lone vertex facing a dense arc), all schemes that read the neighbour table, and on "
+        "EVERY real Delaunay mesh Mesh2DDelaunay.neighbors against delaunay.simplices / vertex_neighbor_vertices (case KDelNb: exactly the edge "
+        "set, symmetric, padding -1) and the shape of the split-cross table; (i) READ-ORDER HISTORIES ON ONE real inversion (aa.Inversion, mapping and "
+        "w-tilde formalism, 4 settings combinations, all objects regularized / mixed / single / kernel scheme; with and without "
+        "Preloads(regularization_matrix=...)): regularization_matrix, regularization_matrix_reduced, log_det_regularization_matrix_term, "
+        "regularization_term, curvature_reg_matrix(_reduced), log_det_curvature_reg_matrix_term, reconstruction(_reduced) read in 9 orders, "
+        "EVERY observation against the specification (block assembly of the matrices fresh objects' schemes return; regularization_term = "
+        "s^T H s, case KTerm; log det; F + H), arrays handed out re-checked at the end, bytes of the preload before/after, the objects' own "
+        "matrices afterwards; (a)(c)(d) REUSE / EDIT histories: one scheme object on a second, different linear object (same or different "
+        "parameter count) and on the first again, its coefficients edited in place and re-read, one linear object given a second scheme "
+        "(LinearObj.regularization_matrix read twice), the adapt image edited in place, every scheme call repeated on the same real mapper, "
+        "fingerprints of the neighbour arrays / signals / mapping arrays / mesh / adapt image against an untouched twin; (b) derived adapt "
+        "images (arithmetic after .native) and derived Delaunay meshes (arithmetic after the triangulation was read); (e) coefficients 2^-20 .. "
+        "2^-12 (squares around and far below the 1e-8 ridge) and 2^12, 2^20 for every scheme, tiny / tied / zero signals and adapt images "
+        "(2^-40, 2^40, all equal, zeros), anisotropic pixel scales with a shifted origin and non-square data at the class layer; all matrix "
+        "comparisons RELATIVE to the scale of the entry (sqrt(H_aa H_bb)); PIXEL SIGNALS: mapper.pixel_signals_from on every real mapper "
+        "whose scheme reads signals and mapper_util.adaptive_pixel_signals_from directly (single-vertex and interpolated rows, padded rows, "
+        "pixels nobody maps to, powers 0..3, zeros / ties / 2^-34 data, out-of-range index / size / slim -> exception) against the model (case "
+        "KSignals). Non-trivial = at least 3 parameters and 2 neighbour pairs / cross rows (high-degree meshes: a vertex of degree > 20); "
+        "distinct = distinct JSON input.")
 EXHAUSTIVE = {"quick": "rectangular_neighbors_from: all shapes 1..8 x 1..8", "thorough": "rectangular_neighbors_from: all shapes 1..12 x 1..12"}
 TRUSTED = ["hand-written Gallina model coq/Model/C07.v (update lists in the code's loop order + scatter), tied to /repo by this "
-           "correspondence run, evaluated inside Coq by vm_compute at exact rationals; comparison tolerance 1e-11*(1+|v|) because the "
-           "1e-8 ridge is not a dyadic number (all other generated quantities are dyadic, so only the diagonal is inexact)",
-           "scipy.linalg.block_diag and numpy.delete modelled by contract; scipy.spatial.Delaunay / find_simplex are oracles whose "
-           "outputs (neighbour lists, split-cross tables) are fed to both sides, their symmetry / distinctness being checked per case",
-           "pixel signals (real power **signal_scale, division by the maximum) are taken from the implementation and are an input of the model",
+           "correspondence run, evaluated inside Coq by vm_compute at exact rationals; comparison tolerance 1e-11 RELATIVE to the scale of "
+           "the entry, (a-b)^2 <= 1e-22 |H_aa| |H_bb|, because the 1e-8 ridge is not a dyadic number (all other generated quantities of the "
+           "mock streams are dyadic, so only the diagonal is inexact there)",
+           "scipy.linalg.block_diag and numpy.delete modelled by contract; scipy.spatial.Delaunay / find_simplex are oracles: the neighbour "
+           "table is checked against delaunay.simplices on every real mesh (and proved to be the edge relation GIVEN the documented contract "
+           "of vertex_neighbor_vertices, which is itself checked per case: vnv_ok); split-cross tables are fed to both sides, their "
+           "distinctness being checked per case (and proved given valid simplices, through property C06's model of the mapping routine)",
+           "pixel signals: modelled (adaptive_pixel_signals_from) for integer powers; the mapping arrays (pix_indexes / sizes / weights / "
+           "slim index: property C06's subject) are taken from the implementation",
            "extended-mesh kernel cases: the returned covariance matrix is handed to Coq as indexes into the list of its distinct values "
-           "(exact; decoded inside Coq); its inverse is checked in Python only (contract to 1e-4, eigenvalue margins)"]
+           "(exact; decoded inside Coq); its inverse is checked in Python only (contract to 1e-4, eigenvalue margins)",
+           "read-order histories: log-determinants and F + H are compared in Python (numpy slogdet of the specification's matrix; a fresh "
+           "inversion's curvature matrix); the regularization term is compared inside Coq at 1e-9 of the sum of the absolute terms"]
 ASSUMPTIONS = ["real arithmetic (no rounding): theorems over R with the ridge a parameter eps > 0",
-               "neighbour lists symmetric and in range (proved for nothing but checked on every generated mesh); split-cross rows have "
-               "distinct vertices and at least one vertex",
-               "GaussianKernel / ExponentialKernel: see level_note (partial)"]
+               "neighbour lists symmetric and in range: proved for rectangular meshes of every shape and, given scipy's contract for "
+               "vertex_neighbor_vertices, for every Delaunay mesh; checked on every generated mesh; split-cross rows have distinct "
+               "vertices and at least one vertex: proved for Delaunay meshes given valid simplices",
+               "GaussianKernel / ExponentialKernel: see level_note (partial beyond 2 points / 3 points exponential)"]
 
 SCHEMES = ["Constant", "ConstantZeroth", "Zeroth", "AdaptiveBrightness", "BrightnessZeroth", "ConstantSplit", "AdaptiveBrightnessSplit"]
 COEFS = ["1/4", "1/2", "1", "3/2", "2", "3", "5/4"]
@@ -158,7 +185,7 @@ def gen_inputs0(tier, rng):
     # C. real Delaunay mappers (all seven schemes)
     for i in range(150 if big else 14):
         yield {"op": "delaunay", "npts": rng.randint(5, 9), "scheme": rand_scheme(rng, SCHEMES[i % 7]), "signal_scale": rng.choice([1, 2]),
-               "seed": rng.randrange(10 ** 9)}
+               "seed": rng.randrange(10 ** 9), "derived": i % 5 == 4}
     # D. reg_split_from directly (valid and malformed)
     for i in range(300 if big else 30):
         n = rng.randint(1, 6)
@@ -193,9 +220,11 @@ def gen_inputs0(tier, rng):
         kind = ["oob", "neg", "asym"][i % 3]
         if rows:
             r = rng.choice(rows); j = rng.randrange(o["sizes"][r])
+            # (never the row's own index: a self-loop adds and subtracts c^2 on the diagonal, and (1e-8 + c^2) - c^2 is not 1e-8 in
+            #  doubles -- a rounding error of 3e-11 relative to the ridge, outside the 1e-11 comparison; no mesh lists a pixel as its own neighbour)
             if kind == "oob": o["nb"][r][j] = n + rng.randint(0, 2)
-            elif kind == "neg": o["nb"][r][j] = -rng.randint(1, n)
-            else: o["nb"][r][j] = (o["nb"][r][j] + 1) % n
+            elif kind == "neg": o["nb"][r][j] = -rng.choice([k for k in range(1, n + 1) if n - k != r])
+            else: o["nb"][r][j] = [v for v in ((o["nb"][r][j] + 1) % n, (o["nb"][r][j] + 2) % n) if v != r][0]
         yield {"op": "mock", "scheme": rand_scheme(rng, rng.choice(["Constant", "ConstantZeroth", "AdaptiveBrightness"])), "obj": o, "malformed": kind}
 
     # R. REAL inversions (aa.Inversion / InversionImagingMapping / InversionImagingWTilde on a real Imaging dataset): block assembly
@@ -206,6 +235,9 @@ def gen_inputs0(tier, rng):
             yield {"op": "realinv", "mask": base["mask"], "seed": base["seed"], "objs": [base["objs"][i] for i in perm], "check_blocks": k == 0}
     # X. kernel schemes on EXTENDED meshes (some pair further than 5 scale lengths apart, spacing well below the scale)
     for inp in kernelx_inputs(rng, big):
+        yield inp
+    # P. phase 3: high-degree Delaunay meshes, read-order histories on ONE inversion, reuse histories, pixel signals, scales
+    for inp in phase3_inputs(rng, big):
         yield inp
 
 FUNC_SCHEMES = ["Constant", "ConstantZeroth", "Zeroth"]
@@ -379,7 +411,9 @@ def pd_observed(out, name, wf):
     H = np.array([[float(x) for x in r] for r in out[1]], dtype=float)
     if H.size == 0: return None
     if np.abs(H - H.T).max() > 1e-10 * max(1.0, np.abs(H).max()): return False
-    if name in PD_SCHEMES:
+    if name in PD_SCHEMES and np.abs(H).max() <= 1e5:
+        # (beyond 1e5 the 1e-8 ridge is below the resolution of a double next to the entries: definiteness is a theorem about the
+        # real-number model, observable in floating point only as positive SEMI-definiteness)
         try: np.linalg.cholesky(H)
         except Exception: return False
     else:
@@ -411,6 +445,9 @@ def run_case(inp):
     if op == "rectnb": return run_rectnb(aa, inp)
     if op == "realinv": return run_realinv(aa, inp)
     if op == "kernelx": return run_kernelx(aa, inp)
+    if op == "hist": return run_hist(aa, inp)
+    if op == "reuse": return run_reuse(aa, inp)
+    if op == "signals": return run_signals(aa, inp)
     raise ValueError(op)
 
 def size_of(s, o):
@@ -461,50 +498,170 @@ def obj_from_mapper(mapper, s, signal_scale, with_split):
         o["sw"] = [[str(frac(x)) for x in r] for r in sc.weights]
     return o
 
-def real_common(aa, inp, mapper, s, kind, with_split):
+def vec_out(f):
+    try: return ("ok", [frac(x) for x in np.asarray(f(), dtype=float).reshape(-1)])
+    except Exception as e: return ("raise", exn_name(e))
+
+def signals_term(pixels, pw, idx, sizes, wts, slim, adapt, out):
+    rows = clist([ctup([czl([int(v) for v in r]), cnat(int(k)), cqv([frac(x) for x in w]), cnat(int(sl))]) for r, k, w, sl in zip(idx, sizes, wts, slim)])
+    return f"(KSignals {cnat(pixels)} {cnat(pw)} {rows} {cqv([frac(x) for x in adapt])} {cres(out, cqv)})"
+
+def mapper_signals_case(mapper, signal_scale):
+    """mapper.pixel_signals_from against the model of adaptive_pixel_signals_from, fed with the mapper's own mapping arrays"""
+    out = vec_out(lambda: mapper.pixel_signals_from(signal_scale=float(signal_scale)))
+    return signals_term(int(mapper.pixels), int(signal_scale), np.asarray(mapper.pix_indexes_for_sub_slim_index), np.asarray(mapper.pix_sizes_for_sub_slim_index),
+                        np.asarray(mapper.pix_weights_for_sub_slim_index, dtype=float), np.asarray(mapper.over_sampler.slim_for_sub_slim),
+                        np.array(mapper.adapt_data, dtype=float), out), out
+
+def fingerprint(mapper):
+    """bytes of everything a scheme reads from a mapper"""
+    mg = mapper.source_plane_mesh_grid
+    parts = [np.asarray(mg.neighbors), np.asarray(mg.neighbors.sizes), np.asarray(mg), np.asarray(mapper.adapt_data) if mapper.adapt_data is not None else np.zeros(0),
+             np.asarray(mapper.pix_indexes_for_sub_slim_index), np.asarray(mapper.pix_sizes_for_sub_slim_index), np.asarray(mapper.pix_weights_for_sub_slim_index)]
+    return [np.ascontiguousarray(a).tobytes() for a in parts]
+
+SIGNAL_SCHEMES = ("AdaptiveBrightness", "BrightnessZeroth", "AdaptiveBrightnessSplit")
+def real_common(aa, inp, mapper, s, kind, with_split, fresh=None):
     s = dict(s, signal_scale=inp["signal_scale"])
     o = obj_from_mapper(mapper, s, inp["signal_scale"], with_split)
     reg, out_m, w, terms = scheme_cases(aa, s, o, mapper, kind)
     wf = wf_of(s, o)
     ok = pd_observed(out_m, s["name"], True)
     if not wf: ok = False        # a real mesh must hand symmetric in-range neighbours / distinct cross vertices to the schemes
-    # LinearObj.regularization_matrix glue on the real mapper
+    detail = {"wf": wf}
+    # (a) the same scheme object on the same mapper a second time, then LinearObj.regularization_matrix (twice) on that mapper
+    out_2 = call(lambda: reg.regularization_matrix_from(linear_obj=mapper))
+    if out_2 != out_m: terms.append(f"(KMatrix {cscheme(s)} {clobj(fo(o))} {cres_m(out_2)})"); ok = False; detail["second_call"] = "differs from the first"
     mapper.regularization = reg
-    out_l = call(lambda: mapper.regularization_matrix)
-    if out_l != out_m: terms.append(f"(KMatrix {cscheme(s)} {clobj(fo(o))} {cres_m(out_l)})")
-    return {"coq": terms[0], "extra_coq": terms[1:], "out": {"matrix": summary(out_m), "neighbors": o["nb"], "sizes": o["sizes"]},
-            "py_ok": ok, "kind": kind + ":" + s["name"], "nontrivial": True, "detail": {"wf": wf}}
+    for rep in range(2):
+        out_l = call(lambda: mapper.regularization_matrix)
+        if out_l != out_m: terms.append(f"(KMatrix {cscheme(s)} {clobj(fo(o))} {cres_m(out_l)})")
+    # the signals the scheme used: pixel_signals_from against the model of adaptive_pixel_signals_from
+    if s["name"] in SIGNAL_SCHEMES:
+        t, so = mapper_signals_case(mapper, inp["signal_scale"])
+        terms.append(t)
+        if so[0] != "ok" or [str(x) for x in so[1]] != o["signals"]: ok = False; detail["signals"] = "pixel_signals_from changed between two calls"
+    # (d) nothing the schemes read was modified: compare with an identically built, untouched mapper
+    if fresh is not None:
+        if fingerprint(mapper) != fingerprint(fresh()): ok = False; detail["inputs"] = "the mapper's arrays were modified by the calls"
+    return {"coq": terms[0], "extra_coq": terms[1:], "out": {"matrix": summary(out_m), "neighbors": o["nb"] if len(o["nb"]) <= 12 else o["nb"][:6], "sizes": o["sizes"]},
+            "py_ok": ok, "kind": kind + ":" + s["name"], "nontrivial": True, "detail": detail}
 
+ADAPT_KINDS = {"ties": lambda rng: 4.0, "zeros": lambda rng: float(rng.choice([0, 0, 3, 8])), "tiny": lambda rng: rng.randint(1, 16) * 2.0 ** -40,
+               "huge": lambda rng: rng.randint(1, 16) * 2.0 ** 40, "derived": lambda rng: float(rng.randint(1, 16))}
 def run_rect(aa, inp):
     import random
-    rng = random.Random(inp["seed"])
     dh, dw = inp["data_shape"]
-    mask = aa.Mask2D.all_false(shape_native=(dh, dw), pixel_scales=1.0)
-    grid = aa.Grid2D.from_mask(mask=mask)
-    mesh = aa.Mesh2DRectangular.overlay_grid(shape_native=tuple(inp["shape"]), grid=grid)
-    adapt = aa.Array2D(values=np.array([float(rng.randint(1, 16)) for _ in range(dh * dw)]), mask=mask)
-    mg = aa.MapperGrids(mask=mask, source_plane_data_grid=grid, source_plane_mesh_grid=mesh, adapt_data=adapt)
-    mapper = aa.Mapper(mapper_grids=mg, over_sampler=aa.OverSamplerUniform(mask=mask, sub_size=1), regularization=None)
-    return real_common(aa, inp, mapper, inp["scheme"], "rect", False)
+    ps = tuple(inp["pixel_scales"]) if inp.get("pixel_scales") else 1.0
+    org = tuple(inp.get("origin") or (0.0, 0.0))
+    def mk():
+        rng = random.Random(inp["seed"])
+        mask = aa.Mask2D.all_false(shape_native=(dh, dw), pixel_scales=ps, origin=org)
+        grid = aa.Grid2D.from_mask(mask=mask)
+        mesh = aa.Mesh2DRectangular.overlay_grid(shape_native=tuple(inp["shape"]), grid=grid)
+        gen = ADAPT_KINDS.get(inp.get("adapt"), lambda r: float(r.randint(1, 16)))
+        vals = np.array([gen(rng) for _ in range(dh * dw)])
+        if inp.get("adapt") == "zeros": vals[rng.randrange(len(vals))] = 5.0      # a positive maximum
+        adapt = aa.Array2D(values=vals, mask=mask)
+        if inp.get("adapt") == "derived":
+            # (b) a DERIVED adapt image: arithmetic on an array whose native form was read before
+            adapt.native
+            adapt = (adapt * 2.0 + 1.0)
+        mg = aa.MapperGrids(mask=mask, source_plane_data_grid=grid, source_plane_mesh_grid=mesh, adapt_data=adapt)
+        return aa.Mapper(mapper_grids=mg, over_sampler=aa.OverSamplerUniform(mask=mask, sub_size=1), regularization=None)
+    return real_common(aa, inp, mk(), inp["scheme"], "rect" + (":" + inp["adapt"] if inp.get("adapt") else ""), False, fresh=mk)
+
+def mesh_points(inp, rng):
+    """vertex sets of the Delaunay streams.  lattice: 5-9 quarter-lattice points (degrees 2-6);
+    ring / ringj: one vertex inside a ring of inp["ring"] points (exact / radially jittered): the centre has degree = ring size;
+    clump: a lone vertex facing a dense arc of inp["ring"] points (plus three outliers): degree >= ring size"""
+    import math
+    kind = inp.get("mesh", "lattice")
+    if kind == "lattice":
+        pts = set()
+        while len(pts) < inp["npts"]: pts.add((rng.randint(-8, 8) / 4.0, rng.randint(-8, 8) / 4.0))
+        pts = sorted(pts); rng.shuffle(pts)
+        return pts
+    N = inp["ring"]; ph = rng.random()
+    if kind in ("ring", "ringj"):
+        R = 2.25; cy, cx = rng.choice([(0.0, 0.0), (0.125, -0.25), (-0.25, 0.125)])
+        pts = [(cy, cx)]
+        for i in range(N):
+            r = R * (1.0 + (rng.uniform(-0.004, 0.004) if kind == "ringj" else 0.0))
+            pts.append((cy + r * math.sin(2 * math.pi * (i + ph) / N), cx + r * math.cos(2 * math.pi * (i + ph) / N)))
+    else:
+        vy, vx = 0.125, -1.5
+        R = 3.0
+        pts = [(vy, vx), (vy, vx - 3.0), (vy + 4.5, vx + 3.0), (vy - 4.5, vx + 3.0)]
+        for i in range(N):
+            t = math.radians(-60.0 + 120.0 * (i + 0.5 * ph) / (N - 1 + 0.5))
+            pts.append((vy + R * math.sin(t), vx + R * math.cos(t)))
+    rng.shuffle(pts)
+    return pts
+
+def delnb_case(mesh, coq=True):
+    """Mesh2DDelaunay.neighbors against the triangulation it comes from: (Coq term | None, python verdict, max degree).
+    Python side: the table lists every directed edge of delaunay.simplices exactly once, nothing else (hence symmetric)."""
+    d = mesh.delaunay
+    indptr, indices = d.vertex_neighbor_vertices
+    simplices = [[int(v) for v in t] for t in d.simplices]
+    n = int(len(d.points))
+    nb = mesh.neighbors
+    arr = np.asarray(nb); sizes = np.asarray(nb.sizes)
+    E = {(a, b) for t in simplices for a in t for b in t if a != b}
+    ok = arr.ndim == 2 and arr.shape[0] == n and sizes.shape == (n,)
+    T = []
+    if ok:
+        for i in range(n):
+            k = int(sizes[i])
+            if k < 0 or k > arr.shape[1]: ok = False; break
+            T += [(i, int(v)) for v in arr[i][:k]]
+            if any(int(v) != -1 for v in arr[i][k:]): ok = False       # padding is -1
+    ok = bool(ok and len(T) == len(set(T)) and set(T) == E)
+    deg = {}
+    for a, b in E: deg[a] = deg.get(a, 0) + 1
+    term = None
+    if coq:
+        term = "(KDelNb %s %s %s %s %s %s)" % (cnat(n), clist([cnl(t) for t in simplices]), cnl(indptr), cnl(indices),
+                                              czm([[int(v) for v in r] for r in arr]) if arr.ndim == 2 else "[]", cnl([max(int(v), 0) for v in sizes]))
+    return term, ok, max(deg.values()) if deg else 0
 
 def run_delaunay(aa, inp):
     import random
-    rng = random.Random(inp["seed"])
-    pts = set()
-    while len(pts) < inp["npts"]: pts.add((rng.randint(-8, 8) / 4.0, rng.randint(-8, 8) / 4.0))
-    pts = sorted(pts); rng.shuffle(pts)
-    mask = aa.Mask2D.all_false(shape_native=(4, 4), pixel_scales=1.0)
-    grid = aa.Grid2D.from_mask(mask=mask)
-    adapt = aa.Array2D(values=np.array([float(rng.randint(1, 16)) for _ in range(16)]), mask=mask)
-    try:
+    pts = mesh_points(inp, random.Random(inp["seed"]))
+    def mk():
+        rng = random.Random(inp["seed"] + 1)
+        mask = aa.Mask2D.all_false(shape_native=(4, 4), pixel_scales=1.0)
+        grid = aa.Grid2D.from_mask(mask=mask)
+        adapt = aa.Array2D(values=np.array([float(rng.randint(1, 16)) for _ in range(16)]), mask=mask)
         dm = aa.Mesh2DDelaunay(values=aa.Grid2DIrregular(pts))
+        if inp.get("derived"):
+            # (b) a DERIVED mesh: arithmetic on a mesh whose triangulation and neighbours were read before
+            dm0 = aa.Mesh2DDelaunay(values=aa.Grid2DIrregular([(y * 0.5 - 1.0, x * 0.5 + 2.0) for (y, x) in pts]))
+            dm0.delaunay; dm0.neighbors
+            dm = (dm0 - np.array([-1.0, 2.0])) * 2.0
         dm.delaunay
+        mg = aa.MapperGrids(mask=mask, source_plane_data_grid=grid, source_plane_mesh_grid=dm, adapt_data=adapt)
+        return aa.Mapper(mapper_grids=mg, over_sampler=aa.OverSamplerUniform(mask=mask, sub_size=1), regularization=None)
+    try: mapper = mk()
     except Exception as e:
         return {"coq": None, "out": "degenerate point set: " + type(e).__name__, "py_ok": None, "kind": "delaunay:skipped", "nontrivial": False}
-    mg = aa.MapperGrids(mask=mask, source_plane_data_grid=grid, source_plane_mesh_grid=dm, adapt_data=adapt)
-    mapper = aa.Mapper(mapper_grids=mg, over_sampler=aa.OverSamplerUniform(mask=mask, sub_size=1), regularization=None)
-    r = real_common(aa, inp, mapper, inp["scheme"], "delaunay", True)
+    dm = mapper.source_plane_mesh_grid
+    r = real_common(aa, inp, mapper, inp["scheme"], "delaunay" + (":" + inp["mesh"] if inp.get("mesh") else "") + (":derived" if inp.get("derived") else ""), True, fresh=mk)
     r["out"]["points"] = pts
+    # the neighbour table itself: the edges of the triangulation, every real mesh
+    t, ok, deg = delnb_case(dm)
+    r["extra_coq"] = list(r.get("extra_coq") or []) + [t]
+    if not ok: r["py_ok"] = False; r.setdefault("detail", {})["neighbors"] = "not the edge set of delaunay.simplices"
+    if inp.get("derived") and not same(np.asarray(dm), np.array(pts, dtype=float)): r["py_ok"] = None; r["kind"] += ":inexact"
+    # the split-cross table has the shape the model [split_table] gives it: 4 rows per vertex, 3 mapping columns + a column of -1 / 0.0
+    sc = mapper.pix_sub_weights_split_cross
+    scm, scs, scw = np.asarray(sc.mappings), np.asarray(sc.sizes), np.asarray(sc.weights)
+    if not (scm.shape == (4 * len(pts), 4) and scw.shape == scm.shape and scs.shape == (4 * len(pts),) and bool(np.all(scm[:, 3] == -1))
+            and bool(np.all(scw[:, 3] == 0.0)) and bool(np.all((scs == 1) | (scs == 3)))):
+        r["py_ok"] = False; r.setdefault("detail", {})["split_table"] = "not 4 rows per vertex of 3 mappings + (-1, 0.0)"
+    r["out"]["max_degree"] = deg
+    if inp.get("mesh"): r["nontrivial"] = deg > 20
     return r
 
 def run_split(aa, inp):
@@ -618,7 +775,7 @@ def hfunc_cls(aa):
             @property
             def params(self): return self._n
             @property
-            def mapping_matrix(self): return np.ones((self.grid.shape[0], self._n))
+            def mapping_matrix(self): return getattr(self, "_cols", None) if getattr(self, "_cols", None) is not None else np.ones((self.grid.shape[0], self._n))
         _HFUNC["c"] = HarnessFuncList
     return _HFUNC["c"]
 
@@ -829,3 +986,396 @@ def run_kernelx(aa, inp):
         notes.update(min_eig_cov=emin, min_eig_reg=hmin, residual=res)
     return {"coq": t1, "out": {"n": n, "far_pairs": far, "distinct_d2": len(tbl), "extent_in_scales": float(max(np.ptp(arr[:, 0]), np.ptp(arr[:, 1])) / fs), "notes": notes},
             "py_ok": bool(ok), "kind": "kernelx:" + ("gauss" if inp["gauss"] else "exp") + ":" + inp["mesh"], "nontrivial": far > 0}
+
+# ====================================================================== phase 3
+# (i) read-order histories on ONE inversion; (ii) high-degree Delaunay vertices; (a) objects used twice / for a second input;
+# (c) read -> in-place edit -> re-read; (d) the caller's arrays after a call; (e) tiny / huge scales, ties, zeros, anisotropic
+# pixel scales and shifted origins at the class layer; pixel signals (mapper_util.adaptive_pixel_signals_from) against the model.
+TINY = ["1/1048576", "1/65536", "1/4096"]          # 2^-20 .. 2^-12: squares 1e-12 .. 6e-8 (around and below the 1e-8 ridge)
+HUGE = ["4096", "1048576"]
+
+ATTR = {"RM": "regularization_matrix", "RMR": "regularization_matrix_reduced", "LD": "log_det_regularization_matrix_term",
+        "RT": "regularization_term", "CR": "curvature_reg_matrix", "RC": "reconstruction", "CRR": "curvature_reg_matrix_reduced",
+        "LDC": "log_det_curvature_reg_matrix_term", "RCR": "reconstruction_reduced"}
+HISTORIES = [["RMR", "LD", "CR", "RMR", "RT", "RM"], ["LD", "RC", "RT", "RMR"], ["RM", "CR", "RM", "RMR", "LD"],
+             ["RMR", "RC", "RMR", "RT", "LD"], ["RT", "RMR", "RM"], ["CR", "RM", "RMR", "RT"],
+             ["RM", "RMR", "LDC", "CRR", "RMR", "RT"], ["RMR", "CRR", "LDC", "RT", "RM", "LD"], ["LD", "CR", "LD", "RMR", "RCR", "RT"]]
+
+def hist_bases(rng, big):
+    C2 = {"name": "Constant", "par": ["2"]}; C3 = {"name": "Constant", "par": ["3"]}
+    fixed = [
+        # every object regularized, >= 2 objects (regularization_matrix_reduced IS the cached regularization_matrix array)
+        [("func", C3), ("rect", C2)],
+        [("rect", {"name": "AdaptiveBrightness", "par": ["1/2", "2"]}), ("func", {"name": "ConstantZeroth", "par": ["1", "3"]}), ("delaunay", {"name": "ConstantSplit", "par": ["1"]})],
+        [("delaunay", {"name": "Constant", "par": ["3/2"]}), ("rect", {"name": "ConstantZeroth", "par": ["2", "1/2"]})],
+        [("funcsub", C2), ("func", {"name": "Zeroth", "par": ["3/2"]})],
+        # mixed: objects without regularization among them
+        [("func", None), ("func", C3), ("rect", C2)],
+        [("rect", {"name": "Constant", "par": ["1"]}), ("func", None), ("delaunay", {"name": "AdaptiveBrightnessSplit", "par": ["1", "2"]})],
+        [("func", None), ("rect", {"name": "BrightnessZeroth", "par": ["2"]}), ("func", None)],
+        # a single regularized object (curvature_reg_matrix takes its in-place branch)
+        [("rect", C2)],
+        [("func", None), ("delaunay", {"name": "GaussianKernel", "par": ["2", "3/2"]})],
+    ]
+    for spec in fixed:
+        objs = []
+        for kind, sch in spec:
+            o = rand_real_obj(rng, kind, False); o["scheme"] = sch
+            if kind in ("func", "funcsub", "lin"): o["params"] = rng.randint(1, 2)
+            objs.append(o)
+        yield objs
+    for i in range(40 if big else 0):
+        k = rng.choice([2, 2, 3])
+        kinds = [rng.choice(["func", "funcsub", "rect", "delaunay"]) for _ in range(k)]
+        regs = [True] * k if i % 2 == 0 else [kd in ("rect", "delaunay") or rng.random() < 0.5 for kd in kinds]
+        objs = [rand_real_obj(rng, kd, rg) for kd, rg in zip(kinds, regs)]
+        for o in objs:
+            if o["kind"] in ("func", "funcsub"): o["params"] = rng.randint(1, 2)
+        yield objs
+
+def phase3_inputs(rng, big):
+    # (ii) one vertex of degree 21..40: neighbour table and every scheme that reads it
+    rings = list(range(21, 41)) if big else [21, 24, 29, 33, 40]
+    plan = {21: [("ring", "ConstantSplit"), ("clump", "AdaptiveBrightness")], 24: [("ringj", "AdaptiveBrightnessSplit"), ("clump", "Constant")],
+            29: [("ring", "Constant"), ("ringj", "ConstantZeroth")], 33: [("clump", "ConstantZeroth"), ("ring", "Zeroth")],
+            40: [("ringj", "Constant"), ("clump", "ConstantZeroth")]}
+    # (the schemes that read pixel signals cost the Coq side ~n^3 operations on 400-bit rationals: they get the rings up to 24 / 26)
+    names = ["Constant", "ConstantZeroth", "AdaptiveBrightness", "BrightnessZeroth", "Zeroth", "ConstantSplit", "AdaptiveBrightnessSplit"]
+    for j, N in enumerate(rings):
+        todo = [(m, (names if N <= 26 else ["Constant", "ConstantZeroth", "Zeroth"])[(j + 3 * kk) % (7 if N <= 26 else 3)]) for kk, m in enumerate(["ring", "ringj", "clump"])] if big else plan[N]
+        for mesh, name in todo:
+            yield {"op": "delaunay", "mesh": mesh, "ring": N, "scheme": rand_scheme(rng, name), "signal_scale": rng.choice([1, 2]),
+                   "seed": rng.randrange(10 ** 9)}
+    # (i) read-order histories on one real inversion
+    j = 0
+    for objs in hist_bases(rng, big):
+        hs = list(range(len(HISTORIES))) if big and j < 9 else [(2 * j) % len(HISTORIES), (2 * j + 5) % len(HISTORIES)]
+        for t, h in enumerate(hs):
+            yield {"op": "hist", "mask": rng.choice(MASKS), "seed": rng.randrange(10 ** 9), "objs": objs, "reads": HISTORIES[h],
+                   "w_tilde": bool((j + t) % 2), "preload": (t == 1) if not big else (t % 3 == 2),
+                   "settings": [{}, {"use_positive_only_solver": False}, {"force_edge_pixels_to_zeros": False},
+                                {"use_positive_only_solver": False, "force_edge_pixels_to_zeros": False}][(j + 2 * t) % 4]}
+        j += 1
+    # (a)(c)(d) reuse / edit histories of scheme objects and linear objects
+    for i in range(120 if big else 14):
+        n1, n2 = rng.randint(2, 5), rng.randint(2, 5)
+        if i % 2 == 0: n2 = n1                  # same parameter count, different neighbour table / signals
+        name = SCHEMES[i % 7]
+        s1 = rand_scheme(rng, name); s2 = rand_scheme(rng, name)
+        if s2["par"] == s1["par"]: s2["par"] = [str(Fraction(x) + 1) for x in s2["par"]]
+        yield {"op": "reuse", "real": i % 3 == 2, "scheme": s1, "scheme_edit": s2, "scheme_other": rand_scheme(rng, SCHEMES[(i + 3) % 7]),
+               "objA": rand_mock_obj(rng, n1), "objB": rand_mock_obj(rng, n2), "seed": rng.randrange(10 ** 9),
+               "mesh": ["rect", "delaunay"][(i // 3) % 2], "signal_scale": rng.choice([1, 2])}
+    # (e) tiny / huge coefficients and signals (mock mappers: exact), real meshes with anisotropic pixels and shifted origins
+    for i in range(168 if big else 42):
+        n = rng.randint(3, 6)
+        o = rand_mock_obj(rng, n)
+        sc = rand_scheme(rng, SCHEMES[i % 7])
+        pool = TINY if i % 2 == 0 else HUGE
+        # every scheme meets every tiny coefficient (2^-20: its square 9e-13 lies far below the 1e-8 ridge)
+        sc["par"] = [pool[(i // 7) % len(pool)] if k == 0 else (rng.choice(pool) if rng.random() < 0.5 else p) for k, p in enumerate(sc["par"])]
+        if i % 4 == 1:    # tiny / tied / zero signals
+            o["signals"] = [rng.choice(["0", "1/1073741824", "1/1073741824", "1", "1/2"]) for _ in range(n)]
+        yield {"op": "mock", "scheme": sc, "obj": o, "scale": "tiny" if i % 2 == 0 else "huge"}
+    for i in range(60 if big else 10):
+        sc = rand_scheme(rng, SCHEMES[:5][i % 5])
+        if i % 3 == 0: sc["par"] = [rng.choice(TINY + HUGE) for _ in sc["par"]]
+        yield {"op": "rect", "shape": list(rng.choice([(3, 5), (5, 3), (4, 4), (3, 4), (4, 3)])), "scheme": sc, "signal_scale": rng.choice([1, 2]),
+               "data_shape": list(rng.choice([(3, 6), (6, 3), (4, 5), (5, 3)])), "pixel_scales": rng.choice([[0.5, 2.0], [2.0, 0.25], [1.0, 0.5]]),
+               "origin": rng.choice([[1.0, -2.0], [-0.5, 3.0], [0.25, 0.25]]), "adapt": ["ties", "zeros", "tiny", "huge", "derived"][(i + i // 5) % 5],
+               "seed": rng.randrange(10 ** 9)}
+    # pixel signals at the util layer: every branch of the loop (single-vertex rows, interpolated rows, padded rows, pixels nobody maps to)
+    for i in range(200 if big else 24):
+        pixels = rng.randint(1, 7)
+        width = rng.choice([1, 3, 3, 4])
+        nsub = rng.randint(1, 9)
+        nslim = rng.randint(1, nsub)
+        rows = []
+        for k in range(nsub):
+            if width > 1 and pixels >= width and rng.random() < 0.6:
+                vs = rng.sample(range(pixels), width); size = width
+                ws = [str(Fraction(rng.randint(0, 8), 8)) for _ in range(width)]
+            else:
+                vs = [rng.randrange(pixels)] + [-1] * (width - 1); size = 1
+                ws = ["1"] + ["0"] * (width - 1)
+            rows.append({"idx": vs, "size": size, "w": ws, "slim": rng.randrange(nslim)})
+        kind = ["plain", "zeros", "ties", "tiny", "malformed"][i % 5]
+        adapt = [str(Fraction(rng.randint(1, 16), rng.choice([1, 4])) if kind != "tiny" else Fraction(rng.randint(1, 16), 2 ** 34)) for _ in range(nslim)]
+        if kind == "zeros":
+            adapt = [a if rng.random() < 0.5 else "0" for a in adapt]
+            adapt[rows[0]["slim"]] = "3"; rows[0]["w"][0] = "1"          # a positive maximum (0 / 0 = nan otherwise: outside the model)
+        if kind == "ties": adapt = [adapt[0]] * nslim
+        if kind == "malformed" and rows:
+            r = rng.choice(rows); c = rng.choice(["oob", "size", "slim"])
+            if c == "oob": r["idx"][0] = pixels + rng.randint(0, 2)
+            elif c == "size" and width > 2: r["size"] = 2
+            else: r["slim"] = nslim + 1
+        yield {"op": "signals", "pixels": pixels, "rows": rows, "adapt": adapt, "signal_scale": rng.choice([0, 1, 1, 2, 2, 3]), "kind": kind}
+
+# ---------------------------------------------------------------------- helpers
+def np_mat(M): return np.array([[float(x) for x in r] for r in M], dtype=float).reshape((len(M), len(M[0]) if M else 0))
+
+def assemble(blocks):
+    """the specification's block placement, written here independently of scipy.linalg.block_diag"""
+    n = sum(len(b) for b in blocks)
+    H = np.zeros((n, n)); off = 0
+    for b in blocks:
+        p = len(b)
+        if p: H[off:off + p, off:off + p] = np.asarray(b, dtype=float)
+        off += p
+    return H
+
+def same(a, b):
+    a = np.asarray(a); b = np.asarray(b)
+    return a.shape == b.shape and a.tobytes() == np.asarray(b, dtype=a.dtype).tobytes()
+
+def objs_term(inp_objs, objs, L, blocks, H, Hr, kernel):
+    """the Coq case of one observation (regularization_matrix, regularization_matrix_reduced) of an inversion"""
+    if kernel:
+        sz = clist([ctup([cnat(int(lo.params)), cbool(d["scheme"] is not None)]) for d, lo in zip(inp_objs, objs)])
+        return f"(KAssembly {sz} {clist([cqm(b) for b in blocks])} {cqm(H)} {cqm(Hr)})"
+    to = []
+    for d, o in zip(inp_objs, L):
+        to.append("(None, " + clobj(fo(o)) + ")" if d["scheme"] is None else "(Some " + cscheme(d["scheme"]) + ", " + clobj(fo(o)) + ")")
+    return f"(KInversion {clist(to)} {clist([cqm(b) for b in blocks])} {cqm(H)} {cqm(Hr)})"
+
+def run_hist(aa, inp):
+    """ONE inversion, its properties read in a given order; every observation against the specification (block assembly of the
+    matrices the objects' schemes return on FRESH objects)"""
+    from autoarray.preloads import Preloads
+    ds, mask, rng = real_dataset(aa, inp)
+    grid = aa.Grid2D.from_mask(mask=mask)
+    npix = grid.shape[0]
+    adapt = aa.Array2D(values=np.array([float(rng.randint(1, 16)) for _ in range(npix)]), mask=mask)
+    colseed = rng.randrange(10 ** 6)
+    def build():
+        rs = np.random.RandomState(colseed)
+        out = []
+        for d in inp["objs"]:
+            lo = build_real_obj(aa, d, mask, grid, adapt)
+            if lo is not None and d["kind"] in ("func", "funcsub"):
+                cols = rs.randint(1, 9, size=(npix, d["params"])).astype(float)        # independent columns: the curvature matrix is regular
+                if d["kind"] == "func": lo._mapping_matrix = cols
+                else: lo._cols = cols
+            out.append(lo)
+        return out
+    objs, objs2 = build(), build()
+    if any(o is None for o in objs):
+        return {"coq": None, "out": "degenerate point set", "py_ok": None, "kind": "hist:skipped", "nontrivial": False}
+    regd = [d["scheme"] is not None for d in inp["objs"]]
+    blocks_np = [np.asarray(lo.regularization_matrix, dtype=float) for lo in objs2]
+    blocks = [mat_out(b) for b in blocks_np]
+    Hs = assemble(blocks_np); Hrs = assemble([b for b, r in zip(blocks_np, regd) if r])
+    keep = np.array([r for b, r in zip(blocks_np, regd) for _ in range(len(b))], dtype=bool)
+    kernel = any(d["scheme"] and d["scheme"]["name"] in KERNELS for d in inp["objs"])
+    L = [lobj_of(d, lo) for d, lo in zip(inp["objs"], objs2)]
+    # non-default settings combinations (they change the reconstruction, never the regularization matrices); ONE settings object
+    # serves both inversions; without a preload the library's own (shared) default Preloads object is used
+    opts = inp.get("settings") or {}
+    settings = aa.SettingsInversion(use_w_tilde=bool(inp["w_tilde"]), **opts)
+    F = np.array(aa.Inversion(dataset=ds, linear_obj_list=objs2, settings=settings).curvature_matrix, dtype=float)
+    P = Hs.copy() if inp["preload"] else None
+    P_bytes = P.tobytes() if P is not None else None
+    if P is not None: inv = aa.Inversion(dataset=ds, linear_obj_list=objs, settings=settings, preloads=Preloads(regularization_matrix=P))
+    else: inv = aa.Inversion(dataset=ds, linear_obj_list=objs, settings=settings)
+    notes, ok = {}, True
+    pairs, terms_x = [], []            # (H, Hr) observations sent to Coq; regularization_term observations
+    state = {"H": None, "Hr": None}
+    all_pd = True
+    for d, o, b in zip(inp["objs"], L, blocks_np):
+        s = d["scheme"]
+        if s is None: continue
+        if s["name"] in KERNELS: continue
+        if s["name"] not in PD_SCHEMES or not wf_of(s, o): all_pd = False
+    def fail(key, val):
+        nonlocal ok
+        ok = False; notes.setdefault(key, val)
+    trace, held = [], []
+    def read(name, step):
+        try: v = getattr(inv, ATTR[name])
+        except Exception as e:
+            trace.append(name + ":" + type(e).__name__)
+            if name in ("RM", "RMR"): fail("raised", f"{name}@{step}: {type(e).__name__}")
+            return
+        trace.append(name)
+        if name in ("RM", "RMR"): held.append((name, step, v))
+        if name == "RM":
+            v = np.asarray(v, dtype=float)
+            if not same(v, Hs): fail("RM", f"step {step}: regularization_matrix is not the block assembly")
+            if state["H"] is None or not same(v, state["H"]): state["H"] = v.copy(); state["dirty"] = True
+        elif name == "RMR":
+            v = np.asarray(v, dtype=float)
+            if not same(v, Hrs): fail("RMR", f"step {step}: regularization_matrix_reduced is not the assembly of the regularized blocks")
+            if state["Hr"] is None or not same(v, state["Hr"]): state["Hr"] = v.copy(); state["dirty"] = True
+        elif name in ("CR", "CRR"):
+            v = np.asarray(v, dtype=float); want = F + Hs
+            if name == "CRR": want = want[keep][:, keep] if not all(regd) else want
+            if v.shape != want.shape or np.abs(v - want).max() > 1e-9 * max(1.0, np.abs(want).max()):
+                fail(name, f"step {step}: not curvature_matrix + regularization_matrix")
+        elif name == "LD":
+            if all_pd and Hrs.size:
+                want = float(np.linalg.slogdet(Hrs)[1])
+                if not np.isfinite(v) or abs(float(v) - want) > 1e-6 * max(1.0, abs(want)): fail("LD", f"step {step}: {float(v)} != log det {want}")
+        elif name == "RT":
+            try: x = np.asarray(inv.reconstruction, dtype=float)
+            except Exception: return
+            xr = x[keep] if not all(regd) else x
+            want = float(xr @ Hrs @ xr) if Hrs.size else 0.0
+            scale = float(np.abs(xr) @ np.abs(Hrs) @ np.abs(xr)) if Hrs.size else 0.0
+            if abs(float(v) - want) > 1e-9 * scale + 1e-300: fail("RT", f"step {step}: {float(v)} != s^T H s = {want}")
+            key = (x.tobytes(), float(v))
+            if any(regd) and key not in [k for k, _ in terms_x]:
+                sz = clist([ctup([cnat(len(b)), cbool(r)]) for b, r in zip(blocks_np, regd)])
+                terms_x.append((key, f"(KTerm {sz} {clist([cqm(b) for b in blocks])} {cqv([frac(t) for t in x])} {cq(frac(float(v)))})"))
+        if state.get("dirty") and state["H"] is not None and state["Hr"] is not None:
+            pairs.append((mat_out(state["H"]), mat_out(state["Hr"]))); state["dirty"] = False
+    seq = list(inp["reads"]) + ["RMR", "RM", "RT", "LD", "RMR", "RM"]
+    for step, name in enumerate(seq): read(name, step)
+    if state["H"] is None or state["Hr"] is None: fail("unread", "regularization_matrix(_reduced) could not be read")
+    if P is not None:
+        if P.tobytes() != P_bytes: fail("preload", "the preloaded regularization_matrix was modified in place")
+    for name, step, v in held:          # an array handed to the caller keeps its value
+        if not same(np.asarray(v, dtype=float), Hs if name == "RM" else Hrs):
+            fail("held", f"the {ATTR[name]} returned at step {step} was modified afterwards")
+            pairs.append((mat_out(np.asarray(v, dtype=float)), mat_out(state["Hr"])) if name == "RM" else (mat_out(state["H"]), mat_out(np.asarray(v, dtype=float))))
+    # the objects afterwards: their own matrices unchanged
+    for i, (lo, b) in enumerate(zip(objs, blocks_np)):
+        if not same(np.asarray(lo.regularization_matrix, dtype=float), b): fail("object", f"object {i}: regularization_matrix changed after the history")
+    terms = [objs_term(inp["objs"], objs2, L, blocks, H, Hr, kernel) for H, Hr in pairs] + [t for _, t in terms_x]
+    order = [d["kind"] + ":" + (d["scheme"]["name"] if d["scheme"] else "None") for d in inp["objs"]]
+    return {"coq": terms[0] if terms else None, "extra_coq": terms[1:], "py_ok": ok,
+            "out": {"order": order, "class": type(inv).__name__, "trace": trace, "notes": notes, "distinct_observations": len(pairs),
+                    "shape": [int(Hs.shape[0]), int(Hrs.shape[0])]},
+            "kind": "hist:%s%s%s" % ("all" if all(regd) else "mixed", ":preload" if P is not None else "", ":w" if inp["w_tilde"] else ""),
+            "nontrivial": len(objs) >= 2}
+
+# ---------------------------------------------------------------------- (a)(c)(d): reuse / edit histories
+def set_pars(reg, s):
+    """in-place edit of a scheme object's coefficients by the user"""
+    p = [float(Fraction(x)) for x in s["par"]]
+    n = s["name"]
+    if n in ("Constant", "Zeroth", "BrightnessZeroth", "ConstantSplit"): reg.coefficient = p[0]
+    elif n == "ConstantZeroth": reg.coefficient_neighbor, reg.coefficient_zeroth = p[0], p[1]
+    else: reg.inner_coefficient, reg.outer_coefficient = p[0], p[1]
+
+def run_reuse(aa, inp):
+    """one scheme object used for a second, different linear object and again for the first; its coefficients edited in place and
+    re-read; one linear object given a second scheme; every observation is a KMatrix / KWeights case of its own"""
+    import random
+    rng = random.Random(inp["seed"])
+    s1, s1e, s2 = inp["scheme"], inp["scheme_edit"], inp["scheme_other"]
+    ss = inp["signal_scale"]
+    terms, ok, notes = [], True, {}
+    if not inp["real"]:
+        oA, oB = inp["objA"], inp["objB"]
+        mk = {"A": lambda reg=None: mock_mapper(aa, oA, reg=reg), "B": lambda reg=None: mock_mapper(aa, oB, reg=reg)}
+        desc = {"A": lambda s: oA, "B": lambda s: oB}
+        fresh_each_call = True          # reg_split_from edits the arrays a MockMapper stores: a mock mapper serves ONE split call
+    else:
+        def mk_real(which):
+            def f(reg=None):
+                mask = aa.Mask2D.all_false(shape_native=(4, 4) if which == "A" else (3, 5), pixel_scales=1.0)
+                grid = aa.Grid2D.from_mask(mask=mask)
+                r2 = random.Random(inp["seed"] + (0 if which == "A" else 7))
+                adapt = aa.Array2D(values=np.array([float(r2.randint(1, 16)) for _ in range(grid.shape[0])]), mask=mask)
+                if inp["mesh"] == "rect":
+                    mesh = aa.Mesh2DRectangular.overlay_grid(shape_native=(3, 3) if which == "A" else (3, 4), grid=grid)
+                else:
+                    pts = set()
+                    while len(pts) < (6 if which == "A" else 8): pts.add((r2.randint(-8, 8) / 4.0, r2.randint(-8, 8) / 4.0))
+                    pts = sorted(pts); r2.shuffle(pts)
+                    mesh = aa.Mesh2DDelaunay(values=aa.Grid2DIrregular(pts)); mesh.delaunay
+                mg = aa.MapperGrids(mask=mask, source_plane_data_grid=grid, source_plane_mesh_grid=mesh, adapt_data=adapt)
+                return aa.Mapper(mapper_grids=mg, over_sampler=aa.OverSamplerUniform(mask=mask, sub_size=1), regularization=reg)
+            return f
+        mk = {"A": mk_real("A"), "B": mk_real("B")}
+        if inp["mesh"] == "rect":
+            for s in (s1, s1e, s2):
+                if s["name"] in ("ConstantSplit", "AdaptiveBrightnessSplit"): s["name"] = {"ConstantSplit": "Constant", "AdaptiveBrightnessSplit": "AdaptiveBrightness"}[s["name"]]
+        try: mk["A"](); mk["B"]()
+        except Exception as e:
+            return {"coq": None, "out": "degenerate point set: " + type(e).__name__, "py_ok": None, "kind": "reuse:skipped", "nontrivial": False}
+        desc = {w: (lambda s, w=w: obj_from_mapper(mk[w](), dict(s, signal_scale=ss), ss, inp["mesh"] == "delaunay")) for w in "AB"}
+        fresh_each_call = False
+    split = s1["name"] in ("ConstantSplit", "AdaptiveBrightnessSplit")
+    S1, S1e, S2 = dict(s1, signal_scale=ss), dict(s1e, signal_scale=ss), dict(s2, signal_scale=ss)
+    def observe(label, s, which, f):
+        out = call(f)
+        terms.append(f"(KMatrix {cscheme(s)} {clobj(fo(desc[which](s)))} {cres_m(out)})")
+        notes[label] = out[0] if out[0] != "ok" else [len(out[1])]
+        return out
+    reg = make_reg(aa, S1)
+    mA, mB = mk["A"](), mk["B"]()
+    a1 = observe("1:A", s1, "A", lambda: reg.regularization_matrix_from(linear_obj=mA))
+    b1 = observe("2:B", s1, "B", lambda: reg.regularization_matrix_from(linear_obj=mB))               # the same scheme object, another object
+    mA2 = mk["A"]() if (fresh_each_call and split) else mA
+    a2 = observe("3:A", s1, "A", lambda: reg.regularization_matrix_from(linear_obj=mA2))              # ... and the first one again
+    if a2 != a1: ok = False; notes["again"] = "third call (first object again) differs from the first call"
+    try:
+        w = [frac(x) for x in np.asarray(reg.regularization_weights_from(linear_obj=mB), dtype=float)]
+        terms.append(f"(KWeights {cscheme(s1)} {clobj(fo(desc['B'](s1)))} {cqv(w)})")
+    except Exception as e: notes["weights"] = type(e).__name__
+    # (c) the user edits the coefficients of the scheme object in place and reads again
+    set_pars(reg, S1e)
+    mB2 = mk["B"]() if (fresh_each_call and split) else mB
+    observe("4:B edited", s1e, "B", lambda: reg.regularization_matrix_from(linear_obj=mB2))
+    try:
+        w = [frac(x) for x in np.asarray(reg.regularization_weights_from(linear_obj=mB2), dtype=float)]
+        terms.append(f"(KWeights {cscheme(s1e)} {clobj(fo(desc['B'](s1e)))} {cqv(w)})")
+    except Exception as e: notes["weights2"] = type(e).__name__
+    # (c) one linear object: scheme attached, matrix read, another scheme attached, matrix read again (LinearObj.regularization_matrix)
+    mC = mk["A"](reg=make_reg(aa, S1))
+    c1 = observe("5:A.regularization_matrix", s1, "A", lambda: mC.regularization_matrix)
+    split2 = s2["name"] in ("ConstantSplit", "AdaptiveBrightnessSplit")
+    if not (fresh_each_call and split and split2):
+        mC.regularization = make_reg(aa, S2)
+        observe("6:A.regularization_matrix, other scheme", s2, "A", lambda: mC.regularization_matrix)
+    if inp["real"]:
+        # (c) the adapt image edited in place by the user: the signals (and the weights) follow
+        mD = mk["A"]()
+        if s1["name"] in SIGNAL_SCHEMES:
+            regD = make_reg(aa, S1)
+            regD.regularization_matrix_from(linear_obj=mD)
+            mD.adapt_data[0] = mD.adapt_data[0] * 4.0 + 64.0
+            t, so = mapper_signals_case(mD, ss); terms.append(t)
+            oD = obj_from_mapper(mD, S1, ss, inp["mesh"] == "delaunay")
+            outD = call(lambda: regD.regularization_matrix_from(linear_obj=mD))
+            terms.append(f"(KMatrix {cscheme(s1)} {clobj(fo(oD))} {cres_m(outD)})")
+        # (d) the arrays of the objects after all these calls
+        if fingerprint(mA) != fingerprint(mk["A"]()) or fingerprint(mB) != fingerprint(mk["B"]()):
+            ok = False; notes["inputs"] = "a mapper's arrays were modified by the calls"
+    else:
+        # (d) the neighbour arrays and signals handed to the schemes (mock objects keep what they were given)
+        for m, o in ((mA, oA), (mB, oB)):
+            nbw = len(o["nb"][0]) if o["nb"] else 0
+            if not (same(np.asarray(m.source_plane_mesh_grid.neighbors), np.array(o["nb"], dtype=int).reshape((len(o["nb"]), nbw)))
+                    and same(np.asarray(m.source_plane_mesh_grid.neighbors.sizes), np.array(o["sizes"], dtype=int))
+                    and same(np.asarray(m.pixel_signals_from(signal_scale=1.0)), np.array([float(Fraction(x)) for x in o["signals"]]))):
+                ok = False; notes["inputs"] = "the arrays handed to the scheme were modified"
+    return {"coq": terms[0], "extra_coq": terms[1:], "py_ok": ok, "out": {"schemes": [s1, s1e, s2], "notes": notes},
+            "kind": "reuse:" + ("real:" + inp["mesh"] if inp["real"] else "mock") + ":" + s1["name"], "nontrivial": True}
+
+# ---------------------------------------------------------------------- pixel signals, util layer
+def run_signals(aa, inp):
+    from autoarray.inversion.pixelization.mappers import mapper_util
+    rows = inp["rows"]
+    width = len(rows[0]["idx"]) if rows else 1
+    idx = np.array([r["idx"] for r in rows], dtype=int).reshape((len(rows), width))
+    sizes = np.array([r["size"] for r in rows], dtype=int)
+    wts = np.array([[float(Fraction(x)) for x in r["w"]] for r in rows], dtype=float).reshape((len(rows), width))
+    slim = np.array([r["slim"] for r in rows], dtype=int)
+    adapt = np.array([float(Fraction(x)) for x in inp["adapt"]], dtype=float)
+    fp = [a.tobytes() for a in (idx, sizes, wts, slim, adapt)]
+    if inp["kind"] != "malformed" and not any(adapt[r["slim"]] > 0 and (r["size"] <= 1 or any(Fraction(x) > 0 for x in r["w"])) for r in rows):
+        return {"coq": None, "out": "vanishing maximum (nan in numpy): outside the model", "py_ok": None, "kind": "signals:skipped", "nontrivial": False}
+    out = vec_out(lambda: mapper_util.adaptive_pixel_signals_from(pixels=inp["pixels"], pixel_weights=wts, signal_scale=float(inp["signal_scale"]),
+                                                                 pix_indexes_for_sub_slim_index=idx, pix_size_for_sub_slim_index=sizes,
+                                                                 slim_index_for_sub_slim_index=slim, adapt_data=adapt))
+    ok = None
+    if [a.tobytes() for a in (idx, sizes, wts, slim, adapt)] != fp: ok = False                      # (d) the caller's arrays
+    if out[0] == "ok" and any(x != x for x in [float(v) for v in out[1]]):                            # nan: 0 / 0 (vanishing maximum)
+        out = ("raise", "OtherException")
+    if out[0] == "raise" and out[1] not in ("IndexError", "OtherException"): out = ("raise", "OtherException")
+    term = signals_term(inp["pixels"], inp["signal_scale"], idx, sizes, wts, slim, adapt, out)
+    return {"coq": term, "out": {"signals": [float(x) for x in out[1]] if out[0] == "ok" else out[1]}, "py_ok": ok, "kind": "signals:" + inp["kind"] + ":" + out[0],
+            "nontrivial": inp["pixels"] >= 3 and len(rows) >= 3}
